@@ -395,6 +395,26 @@ def _s8_kary_collapse(program, res):
         raise AnalysisError("_r_walk_lark_tree: the k-ary fold of arithmetic chains (kop_expr) was not found")
 
 
+def _s9_kary_arguments_as_given(program, res):
+    """the k-ary node builder carries the arguments the walker hands it: each is one operand of the run the text wrote.  Splicing the arguments of a nested node of
+    the same operator into the outer node (an "associative flattening") regroups `a + (b + c)` as `(a + b) + c` — another value for floats (`-1e308 + (1e308 + 1e308)`)"""
+    mod = program.module("expr_rep")
+    f = mod.functions.get("kop_expr")
+    if f is None:
+        raise AnalysisError("anchor vanished: expr_rep.kop_expr")
+    res.analysed(f)
+    scope = [f.node] + [mod.functions[c.func.id].node for c in ast.walk(f.node) if isinstance(c, ast.Call) and isinstance(c.func, ast.Name) and c.func.id in mod.functions
+                        and c.func.id not in ("enc_value",)]
+    splices = [x for s_ in scope for x in ast.walk(s_) if isinstance(x, ast.Attribute) and x.attr == "args" and isinstance(x.value, ast.Name)
+               and x.value.id not in ("self",)]
+    if splices:
+        res.fail_at("C13-S8", f, "kary-splices-nested-arguments",
+                    f"the k-ary node builder reads `{unparse(splices[0])}` of an operand: the arguments of a nested node are taken into the outer node, so a parenthesised "
+                    f"`a + (b + c)` is carried, printed and evaluated as `a + b + c` = (a + b) + c — for floats another value than Python computes for the text", splices[0])
+    else:
+        res.ok("C13-S8", "the k-ary node builder keeps each argument as one operand (no splicing of nested nodes)")
+
+
 def _s7_call_forms(program, res):
     """f(x, …) with f the name of a Term method has to go through that method (which checks how many and which arguments it takes): building the
     expression directly lets round(a, 1) or shift(a, 0) through, and SQL drops the extra argument.  The argument list of the grammar ends in an
@@ -644,6 +664,7 @@ def run(program, res, tier):
     res.rule("C13-S6", "the walker unpacks a child's children only where the grammar guarantees the child keeps its own node (or after testing its kind)")
     _s6(program, res)
     _s7_call_forms(program, res)
+    _s9_kary_arguments_as_given(program, res)
     res.rule("C13-S8", "k-ary arithmetic nodes hold operands joined by one and the same operator")
     _s8_kary_collapse(program, res)
     res.rule("C13-S7", "every operator a Term method can build prints as text the walker accepts")
